@@ -216,6 +216,9 @@ func (e *effectCtx) argStr(info *types.Info, x ast.Expr) string {
 		if obj, ok := info.ObjectOf(v.Sel).(*types.Const); ok {
 			return obj.Name()
 		}
+		if obj, ok := info.ObjectOf(v.Sel).(*types.Var); ok && !obj.IsField() && obj.Pkg() != nil && obj.Parent() == obj.Pkg().Scope() {
+			return obj.Pkg().Name() + "." + obj.Name()
+		}
 		if fld := fieldOf(info, v); fld != nil {
 			return e.argStr(info, v.X) + "." + fld.Name()
 		}
